@@ -21,7 +21,7 @@ from . import meshgen as mg
 PROP = 'C19'
 LEAN_MODULES = ['Femio.Props.C19']
 THEOREMS = ['access_good', 'C19_objects_dont_share', 'C19_user_data_untouched', 'C19_history_independent_partial',
-            'C19_history_independent', 'C19_stale_lru_counterexample', 'C19_stale_nested_counterexample',
+            'C19_history_independent', 'C19_no_future_values', 'C19_stale_lru_counterexample', 'C19_stale_nested_counterexample',
             'C19_eviction_refreshes', 'C19_lru_sizes_positive']
 PARTIAL = ['C19_history_independent_partial: the tree as it is satisfies history independence only for histories WITHOUT '
            'in-place modifiers; the full statement C19_history_independent is proved for the configuration in which modifiers '
